@@ -228,6 +228,23 @@ func HostileJSON(cdc amino, g *Gen, rep Reporter) {
 		return
 	}
 	sp := spans[r.Intn(len(spans))]
+	// hexadecimal tokens (keys, addresses): the same text one byte longer / shorter is another byte string; if it is
+	// accepted it must come back as what was given, not silently cut or padded
+	if tok := string(bz[sp.a+1 : sp.b-1]); len(tok) >= 40 && isHex(tok) && r.Chance(50) {
+		alt := []string{tok + "ab", tok[:len(tok)-2], tok + "a", tok[2:]}[r.Intn(4)]
+		mut := append(append(append([]byte{}, bz[:sp.a]...), []byte(`"`+alt+`"`)...), bz[sp.b:]...)
+		d := dst()
+		rep.Count("c20.hostile.json_hex_length_variants", 1)
+		if p := catch(func() { err = cdc.UnmarshalJSON(mut, d) }); p != nil {
+			rep.Violate("C20", "json-decoder-panic/"+name, fmt.Sprintf("decoding a %s from %s panicked: %v", name, mut, p))
+		} else if err == nil {
+			var back []byte
+			if pp := catch(func() { back, err = cdc.MarshalJSON(reflect.ValueOf(d).Elem().Interface()) }); pp == nil && err == nil && !bytes.Contains(bytes.ToLower(back), bytes.ToLower([]byte(alt))) {
+				rep.Violate("C20", "json-decoder-alters-hex-value/"+name, fmt.Sprintf("a %s whose hexadecimal value %s was given as %s (other length) was accepted and re-encodes as %s: the value was cut or padded silently", name, tok, alt, back))
+			}
+		}
+		return
+	}
 	repl := []string{`7`, `"7"`, `""`, `null`, `"zz"`, `{}`, `[]`, `true`, `-1`, `1e400`, `"0"`, `"x"`, `0`, `"00"`, `[1]`, `{"a":1}`, `"\u0000"`}[r.Intn(17)]
 	mut := append(append(append([]byte{}, bz[:sp.a]...), repl...), bz[sp.b:]...)
 	rep.Count("c20.hostile.json_documents", 1)
@@ -244,4 +261,13 @@ func HostileJSON(cdc amino, g *Gen, rep Reporter) {
 type amino interface {
 	MarshalJSON(o interface{}) ([]byte, error)
 	UnmarshalJSON(bz []byte, ptr interface{}) error
+}
+
+func isHex(s string) bool {
+	for _, c := range s {
+		if !(c >= '0' && c <= '9' || c >= 'a' && c <= 'f' || c >= 'A' && c <= 'F') {
+			return false
+		}
+	}
+	return true
 }
